@@ -358,8 +358,12 @@ fn model_trace(sc: &Scenario, ops: &[Op]) -> Option<Vec<(bool, Vec<(String, Stri
     Some(out)
 }
 
-fn apply_real(bin: &Path, dir: &Path, sc: &Scenario, op: &Op) -> Option<RealRun>
+/// `explicit`: pass the rules file and the ruler directory as options (with their default values)
+/// instead of relying on the defaults — half of the traces do, so both ways of the command line
+/// are exercised.
+fn apply_real(bin: &Path, dir: &Path, sc: &Scenario, op: &Op, explicit: bool) -> Option<RealRun>
 {
+    let pre: Vec<&str> = if explicit { vec!["--rules", RULES_FILE, "--directory", RULER_DIR] } else { vec![] };
     match op
     {
         Op::Edit { path, val } => { let v = sc.edits.iter().find(|(p, _)| p == path).unwrap().1[*val].clone(); write_file(dir, path, &v); None },
@@ -376,13 +380,15 @@ fn apply_real(bin: &Path, dir: &Path, sc: &Scenario, op: &Op) -> Option<RealRun>
         Op::MoveBack { path } => { let _ = fs::rename(dir.join(format!("{}.aside", path)), dir.join(path)); None },
         Op::Build { goal } =>
         {
-            let mut args = vec!["build"];
+            let mut args = pre.clone();
+            args.push("build");
             if let Some(g) = goal { args.push(g); }
             Some(run_ruler(bin, dir, &args))
         },
         Op::Clean { goal } =>
         {
-            let mut args = vec!["clean"];
+            let mut args = pre.clone();
+            args.push("clean");
             if let Some(g) = goal { args.push(g); }
             Some(run_ruler(bin, dir, &args))
         },
@@ -400,7 +406,8 @@ pub fn replay_trace_real(bin: &Path, sc: &Scenario, ops: &[Op], dir: &Path) -> O
     for (i, op) in ops.iter().enumerate()
     {
         if i >= model.len() { break; }
-        let real = apply_real(bin, dir, sc, op);
+        let explicit = ops.len() % 2 == 1;
+        let real = apply_real(bin, dir, sc, op, explicit);
         let (ok, banners, (ws, cache, hist), deterministic) = &model[i];
         if let Some(rr) = &real
         {
